@@ -24,6 +24,24 @@ Theorem code_spin_range_never_raises : forall (s2 : nat) (nz : bool),
   exists l, gen_create_spin_range 2 (spin_fuel s2) (Z.of_nat s2) nz = Ok l.
 Proof. exact gen_spin_range_total. Qed.
 
+(** The three-body helpers behind Dalitz-plot-decomposition alignment (get_spectator_id, get_decay_product_ids,
+    assert_three_body_decay, translated from helicity/decay.py): whenever the code names a spectator, the topology is
+    labelled 0 -> 1, 2, 3, the spectator is THE one final state that does not leave node 1, and the decay products are
+    the sorted states that do. *)
+Theorem code_spectator_spec : forall t s, gen_get_spectator_id t = Ok s ->
+  topo_incoming_edge_ids t = [0] /\ topo_outgoing_edge_ids t = [1; 2; 3] /\
+  In s [1; 2; 3] /\ ~ In s (topo_outgoing t 1) /\
+  (forall x, In x [1; 2; 3] -> ~ In x (topo_outgoing t 1) -> x = s) /\
+  gen_get_decay_product_ids t = Ok (Kin.sort (topo_outgoing t 1)).
+Proof. exact gen_spectator_spec. Qed.
+
+Example code_spectator_example :
+  let E i o e := {| re_id := i; re_orig := o; re_end := e |} in
+  let t := {| rt_nodes := [0; 1]; rt_edges := [E 0 None (Some 0); E 2 (Some 0) None; E 4 (Some 0) (Some 1);
+                                               E 1 (Some 1) None; E 3 (Some 1) None] |} in
+  gen_get_spectator_id t = Ok 2 /\ gen_get_decay_product_ids t = Ok [1; 3].
+Proof. vm_compute. split; reflexivity. Qed.
+
 Example code_spin_range_examples :
   gen_create_spin_range 2 (spin_fuel 1) 1 true = Ok [-1; 1] /\
   gen_create_spin_range 2 (spin_fuel 2) 2 true = Ok [-2; 2] /\
@@ -33,3 +51,4 @@ Proof. repeat split; vm_compute; reflexivity. Qed.
 Print Assumptions code_spin_range_is_model.
 Print Assumptions code_spin_range_spec.
 Print Assumptions code_spin_range_never_raises.
+Print Assumptions code_spectator_spec.
